@@ -128,6 +128,22 @@ class World:
                         c.loop_kinds = {int(k): {a: parse_kind(b) for a, b in v.items()} for k, v in val.items()}
                     elif nm in ('loop_modifies', 'comp_modifies'):
                         setattr(c, nm, {int(k): list(v) for k, v in val.items()})
+                    elif nm == 'inherits':
+                        # behavioural subtyping: the override is verified against the base method's contract,
+                        # for receivers of the overriding class
+                        base = self.contracts[val]
+                        for a in ('params', 'captures', 'returns', 'decreases', 'raises', 'modifies', 'ghost',
+                                  'memo', 'pure_result', 'loop_kinds'):
+                            setattr(c, a, getattr(base, a))
+                        c.requires = list(base.requires)
+                        c.ensures = list(base.ensures)
+                        c.hints = list(base.hints)
+                        c.must_raise = list(base.must_raise)
+                        c.module = base.module
+                        cls = q.rsplit('.', 2)[-2]
+                        fn = ast.parse('def requires_receiver_class(self):\n    return isinstance(self, %s)\n' % cls
+                                       ).body[0]
+                        c.requires.append(('requires_receiver_class', fn))
                     elif nm in ('decreases', 'raises', 'memo', 'modifies', 'structural_eq', 'trusted',
                                 'inline', 'note', 'pure_result', 'inline_if_none', 'group'):
                         setattr(c, nm, val)
